@@ -66,13 +66,15 @@ type frame struct {
 	loops    map[*ssa.BasicBlock]*loopInfo
 	env0     *Env // contract environment of the top-level function (for invariants)
 	parent   *frame
+	atCount  map[string]int
+	atHit    map[string]bool
 	arrLen   map[ssa.Value]int // known length of slices made from local arrays (variadic calls)
 	curBlock *ssa.BasicBlock
 }
 
 func (s *Sym) newFrame(fn *ssa.Function, depth int) *frame {
 	s.actCount++
-	return &frame{s: s, fn: fn, vals: map[ssa.Value]TV{}, locs: map[ssa.Value]*loc{}, clos: map[ssa.Value]*closure{}, arrLen: map[ssa.Value]int{}, act: s.actCount, depth: depth, loops: map[*ssa.BasicBlock]*loopInfo{}}
+	return &frame{s: s, fn: fn, vals: map[ssa.Value]TV{}, locs: map[ssa.Value]*loc{}, clos: map[ssa.Value]*closure{}, arrLen: map[ssa.Value]int{}, atCount: map[string]int{}, atHit: map[string]bool{}, act: s.actCount, depth: depth, loops: map[*ssa.BasicBlock]*loopInfo{}}
 }
 
 func (fr *frame) name(v ssa.Value) string {
@@ -367,7 +369,7 @@ func (fr *frame) zeroInit(st *State, t types.Type, ref string, depth int) {
 		ms := "(Array Int " + mapSortOfElem(es) + ")"
 		name := ElemMapName(u.Elem())
 		m := s.getMap(st, name, ms)
-		s.setMap(st, name, ms, fmt.Sprintf("(store %s %s ((as const %s) %s))", m, ref, mapSortOfElem(es), zeroOf(es)))
+		s.setMap(st, name, ms, fmt.Sprintf("(store %s %s %s)", m, ref, s.constArray("Int", es)))
 	default:
 		so := SortOf(t)
 		name := CellMapName(t)
@@ -521,6 +523,10 @@ func storeTargetsLocal(addr ssa.Value, out map[string]bool) {
 				n, ft := FieldMapName(et, i)
 				addStructOrField(n, ft, out)
 			}
+			return
+		}
+		if isScalarAlloc(a) && !allocEscapes(a, 0) {
+			out[LocalCellName(a)] = true
 			return
 		}
 		out[CellMapName(et)] = true
@@ -899,12 +905,21 @@ func identsOf(e Expr, out map[string]bool) {
 
 // lookupLocal resolves a source-level variable name at a program point via DebugRef.
 func (fr *frame) lookupLocal(name string, at *ssa.BasicBlock, st *State) (TV, bool) {
+	return fr.lookupLocalBefore(name, at, nil, st)
+}
+
+// lookupLocalBefore: like lookupLocal, but inside block at only DebugRefs before
+// instruction limit count.
+func (fr *frame) lookupLocalBefore(name string, at *ssa.BasicBlock, limit ssa.Instruction, st *State) (TV, bool) {
 	var best *ssa.DebugRef
 	for _, b := range fr.fn.Blocks {
 		if !(b == at || b.Dominates(at)) {
 			continue
 		}
 		for _, in := range b.Instrs {
+			if b == at && limit != nil && in == limit {
+				break
+			}
 			d, ok := in.(*ssa.DebugRef)
 			if !ok {
 				continue
@@ -920,17 +935,80 @@ func (fr *frame) lookupLocal(name string, at *ssa.BasicBlock, st *State) (TV, bo
 					}
 				}
 			}
-			if best == nil || best.Block().Dominates(b) {
+			if best == nil || best.Block() == b || best.Block().Dominates(b) {
 				best = d
 			}
 		}
 	}
 	if best == nil {
-		return TV{}, false
+		return fr.lookupRenamed(name, at, limit, st)
 	}
 	if best.IsAddr {
 		l := fr.locOf(best.X, st)
 		return fr.load(st, l), true
 	}
 	return fr.val(best.X, st), true
+}
+
+// lookupRenamed: a declared local (`local name type`) that no longer exists under
+// its name is bound to the only visible source variable of the declared type that
+// is not itself a declared local or a parameter (tolerates renamed locals).
+func (fr *frame) lookupRenamed(name string, at *ssa.BasicBlock, limit ssa.Instruction, st *State) (TV, bool) {
+	if fr.s.FC == nil || !fr.isTop {
+		return TV{}, false
+	}
+	var want string
+	declared := map[string]bool{}
+	for _, l := range fr.s.FC.Locals {
+		declared[l.Name] = true
+		if l.Name == name {
+			want = l.Type
+		}
+	}
+	if want == "" {
+		return TV{}, false
+	}
+	_, wt := fr.s.P.specType(want)
+	if wt == nil {
+		return TV{}, false
+	}
+	for _, p := range fr.fn.Params {
+		declared[p.Name()] = true
+	}
+	cands := map[string]bool{}
+	for _, b := range fr.fn.Blocks {
+		if !(b == at || b.Dominates(at)) {
+			continue
+		}
+		for _, in := range b.Instrs {
+			if b == at && limit != nil && in == limit {
+				break
+			}
+			d, ok := in.(*ssa.DebugRef)
+			if !ok {
+				continue
+			}
+			id, ok := d.Expr.(*ast.Ident)
+			if !ok || declared[id.Name] || id.Name == "_" {
+				continue
+			}
+			vt := d.X.Type()
+			if d.IsAddr {
+				if pt, ok := vt.Underlying().(*types.Pointer); ok {
+					vt = pt.Elem()
+				}
+			}
+			if types.Identical(vt, wt) {
+				cands[id.Name] = true
+			}
+		}
+	}
+	if len(cands) != 1 {
+		return TV{}, false
+	}
+	for n := range cands {
+		fr.s.note("%s: declared local %s not found; bound to %s, the only other visible variable of type %s", FuncKey(fr.fn), name, n, want)
+		return fr.lookupLocalBefore(n, at, limit, st)
+	}
+	return TV{}, false
 }
